@@ -29,6 +29,11 @@ RULE += (". Widened (~6%): schemas BUILT IN GO whose Default fields (json.RawMes
          "/ `required` / `default` on object subschemas at every depth incl. the root (draft-07 documents: ~30% of the object "
          "subschemas, where the siblings of $ref are ignored by validation but ApplyDefaults still walks `properties` and must still "
          "withhold required properties; 2020-12: ~8%), targets {} / {type: object} / a number leaf")
+RULE += (". Widened (~6%): SCALAR defaults (numbers incl. 0.1 / 1e2 / 300, strings, booleans; half pinned by const / enum) with typed "
+         "instances map[string]float32 / int8 / int / uint16 / json.Number / string / named string / bool (also one level down) and their "
+         "untyped twins, and a HISTORY (harness argument history): one fresh Resolved serves 3..7 of these instances of different Go types "
+         "in a drawn order; every step must equal — Go types included, reflect.DeepEqual — what a Resolved of its own gives for that "
+         "instance, with the same Validate verdict of the completed instance")
 PREFILTER = vjudge.prefilter
 
 
@@ -187,6 +192,73 @@ def typed_case(rng):
     return {"op": "defaults", "args": {"schema": root, "insts": jinsts, "ginsts": ginsts}, "meta": {"typed": T}}
 
 
+def typed_history_case(rng):
+    """SCALAR defaults and instances whose Go type fixes the element type of the scalars — map[string]float32, map[string]int8,
+    map[string]string, a named string, json.Number, … next to map[string]any — with a HISTORY (harness argument `history`): one
+    Resolved serves several of these instances, of different Go types, in a drawn order (typed first and untyped after it, and the other
+    way round). Every insertion must be the declared default decoded for THAT element type: each step equals, Go type included, what a
+    Resolved of its own gives, and the completed instance gets the same verdict (half of the properties pin their default with
+    const / enum). Defaults an element type cannot hold (0.1 or 300 in an int8) make ApplyDefaults fail: the documented answer."""
+    kind = rng.choice(["num", "num", "num", "str", "bool", "mixed"])
+    pool = {"num": [Num("0.1"), Num("1"), Num("2.5"), Num("0"), Num("100"), Num("0.5"), Num("1e2"), Num("300"), Num("-3"), Num("0.3"), Num("1.0")],
+            "str": ["prod", "", "x", "0.1"], "bool": [True, False]}
+    pool["mixed"] = pool["num"][:4] + pool["str"][:2] + [True]      # (no null: a typed element cannot hold it; encoding/json skips it)
+    types = {"num": ["map[string]float32", "map[string]float32", "map[string]int8", "map[string]int", "map[string]float64", "map[string]uint16",
+                     "map[string]jnum", "map[mystring]float32", "map[string]int64"],
+             "str": ["map[string]string", "map[string]mystring", "map[mystring]string"], "bool": ["map[string]bool"],
+             "mixed": ["map[string]float32", "map[string]string", "map[string]int8"]}[kind]
+    nested = rng.random() < 0.3
+    names = rng.sample(gs.NAMES + ["e", "f"], rng.randint(1, 4))
+
+    def leaf():
+        d = rng.choice(pool[kind])
+        kvs = [("default", d)]
+        r = rng.random()
+        if r < 0.3:
+            kvs.append(("const", d))
+        elif r < 0.5:
+            kvs.append(("enum", [d] + rng.sample(pool[kind], 1)))
+        elif r < 0.6 and isinstance(d, Num):
+            kvs.append(("type", "number"))
+        return Obj(kvs)
+
+    def level(ns):
+        o = Obj([("type", "object")] if rng.random() < 0.4 else [])
+        o.set("properties", Obj([(k, leaf()) for k in ns]))
+        return o
+    if nested:
+        inner = ["max", "env", "x", "y"]
+        root = Obj([("properties", Obj([(k, level(rng.sample(inner, rng.randint(1, 3)))) for k in names]))])
+    else:
+        root = level(names)
+
+    def present(sub):
+        return Obj([(k, s.get("default")) for k, s in sub.get("properties").kvs if rng.random() < 0.3])
+
+    def inst():
+        if nested:
+            return Obj([(k, present(sub)) for k, sub in root.get("properties").kvs if rng.random() < 0.7])
+        return present(root)
+    jinsts, ginsts = [], []
+    for i in range(rng.randint(2, 3)):
+        j = inst() if i else (Obj([(k, Obj()) for k in names]) if nested else Obj())
+        T = rng.choice(types)
+        if nested:
+            T = "map[string]" + T
+        g = gv.represent_as(rng, j, T)
+        if g is None:
+            j = Obj([(k, Obj()) for k in names]) if nested else Obj()
+            g = gv.represent_as(rng, j, T)
+        jinsts.append(j)
+        ginsts.append(g)
+    nj = len(jinsts)
+    steps = [rng.randrange(nj, nj + len(ginsts))] if rng.random() < 0.6 else []          # a typed instance first …
+    steps += [rng.randrange(nj + len(ginsts)) for _ in range(rng.randint(2, 5))]
+    if rng.random() < 0.5:
+        steps.append(rng.randrange(nj))                                                   # … an untyped one last
+    return {"op": "defaults", "args": {"schema": root, "insts": jinsts, "ginsts": ginsts, "history": steps}, "meta": {"typed": "history:" + kind}}
+
+
 WS = [" ", "\n", "\t", "\r\n", "\n  ", "  ", "\n\t", " \n "]
 
 
@@ -227,6 +299,9 @@ def raw_defaults(rng, root):
 def gen(rng, tier, n):
     ops = []
     while len(ops) < n:
+        if rng.random() < 0.06:
+            ops.append(typed_history_case(rng))
+            continue
         if rng.random() < 0.08:
             o = typed_case(rng)
             if o is not None:
@@ -383,6 +458,9 @@ def judge(o, go, m):
         if t.get("shared"):
             return "violation", "typed instance %d (%s): %s after ApplyDefaults — an inserted default shares its container with another entry (result %s)" % (
                 k, d["t"], t["shared"], t["text"])
+    if go.get("history_free") is False:
+        return "violation", "ApplyDefaults on one Resolved depends on the instances it served before (history %r over %r): %s" % (
+            o["args"].get("history"), [None] * len(o["args"]["insts"]) + [g and g["t"] for g in o["args"].get("ginsts") or []], go.get("history_detail"))
     if go.get("alias_free") is False:
         return "violation", "ApplyDefaults on one Resolved depends on what callers did to earlier results (a shared container): %s" % go.get("alias_detail")
     # ValidateDefaults
